@@ -16,14 +16,19 @@ use std::panic::{catch_unwind, AssertUnwindSafe};
 use std::sync::atomic::{AtomicU64, Ordering};
 use std::sync::Arc;
 
+/// source file of the most recent panic (set by the panic hook): part of what identifies a crash site
+static LAST_PANIC_FILE: std::sync::Mutex<String> = std::sync::Mutex::new(String::new());
+
 fn panic_msg(e: Box<dyn std::any::Any + Send>) -> String {
-    if let Some(s) = e.downcast_ref::<&str>() {
+    let m = if let Some(s) = e.downcast_ref::<&str>() {
         s.to_string()
     } else if let Some(s) = e.downcast_ref::<String>() {
         s.clone()
     } else {
         "panic".to_string()
-    }
+    };
+    let at = LAST_PANIC_FILE.lock().map(|g| g.clone()).unwrap_or_default();
+    if at.is_empty() { m } else { format!("{m} @{at}") }
 }
 
 fn guarded<T>(f: impl FnOnce() -> T) -> Result<T, String> {
@@ -247,7 +252,13 @@ fn main() {
         Box::new(std::io::BufReader::new(std::io::stdin()))
     };
     // silence the default panic hook: panics are data, reported per request
-    std::panic::set_hook(Box::new(|_| {}));
+    std::panic::set_hook(Box::new(|info| {
+        if let (Some(l), Ok(mut g)) = (info.location(), LAST_PANIC_FILE.lock()) {
+            let f = l.file();
+            let parts: Vec<&str> = f.rsplit('/').take(2).collect();
+            *g = parts.into_iter().rev().collect::<Vec<_>>().join("/");
+        }
+    }));
     // watchdog: a request that runs longer than the limit is reported and the process exits
     let started = Arc::new(AtomicU64::new(0));
     let current = Arc::new(AtomicU64::new(u64::MAX));
